@@ -204,9 +204,6 @@ theorem KInv_same (f : Nat → Option Res) (x y : Act) (hf : Frame x y)
     obtain ⟨id, r, h1, h2, h3⟩ := hK.depsOk (hdp hp) j hj
     exact ⟨id, r, by rw [hk]; exact h1, h2, h3⟩
 
-theorem depErr_isOk (b : Bool) (r : Res) : (depErr b r).isOk = r.isOk := by
-  cases r <;> cases b <;> rfl
-
 theorem KInv_local (F : Flags) (c : Config) (a : Nat) (x : Act) (ev : Ev) (y : Act) (eff : Eff)
     (hK : KInv (kidDone c) x) (h : stepLocal F (obsOf F c a x) x ev = some (y, eff)) :
     KInv (kidDone c) y := by
@@ -341,7 +338,7 @@ theorem KInv_local (F : Flags) (c : Config) (a : Nat) (x : Act) (ev : Ev) (y : A
       · cases h1
       · exact .inr (.inl h1)
       · exact .inr (.inr (.inl h1))
-      · simp only [Act.stop, depErr_isOk] at h1; rw [hr] at h1; cases h1
+      · simp only [Act.stopDeps, depErr_isOk] at h1; rw [hr] at h1; cases h1
   | _ =>
     refine KInv_same _ x _ hf ?_ ?_ ?_ ?_ ?_ hK
     · intro s hm; simp_all [mayRun]
